@@ -202,7 +202,8 @@ impl Check for C12 {
             if case["mode"] == json!(0) || nontrivial {
                 nontrivial = true;
             }
-            if std::env::var("VERIF_NO_NODE").is_err() && (crate::engine::hash_str(&src) % 8 == 0) {
+            let odd = src.starts_with('\u{feff}') || src.contains('\r') || src.contains("var odd =") || src.contains("var long =");
+            if std::env::var("VERIF_NO_NODE").is_err() && (odd || crate::engine::hash_str(&src) % 8 == 0) {
                 let req = json!({"cmd": "package", "op": "echo", "code": src, "file": file, "native": v, "config": cfg.json});
                 match node::call(ctx, &req) {
                     Ok(r) => {
@@ -314,8 +315,10 @@ fn history_inputs(t: &mut Tape, cfg: &crate::cfggen::CfgInfo) -> Vec<(String, St
     }
     pool.push(("function broken( {".to_string(), "/app/src/broken.js".to_string()));
     pool.push(("var a = 'only literals' + 'here';\n".to_string(), "/app/src/plain.js".to_string()));
-    let prefix = cfg.prefix.clone().unwrap_or_else(|| "test".into());
-    pool.push((format!("function f(a, b) {{ const __datadog_{prefix}_0 = a; return a + b + `${{a}}`.trim(); }}\n"), "/app/src/clash.js".to_string()));
+    for prefix in ["test", "abcdef", "x", "Z9_$"] {
+        pool.push((format!("function f(a, b) {{ const __datadog_{prefix}_0 = a; return a + b + `${{a}}`.trim(); }}\n"), format!("/app/src/clash_{}.js", prefix.len())));
+    }
+    let _ = cfg;
     pool.push(("function f(a, b) { return a + b; }\n//# sourceMappingURL=missing.js.map\n".to_string(), "/app/src/mapped.js".to_string()));
     pool.push(("function f(a, b) { return a.trim() + b; }\n//# sourceMappingURL=data:application/json;base64,e30=\n".to_string(), "/app/src/inline.js".to_string()));
     pool
@@ -364,6 +367,20 @@ impl Check for C16 {
         vec!["concurrent calls are not exercised: the statement quantifies over sequences and the shipped module is single threaded".into()]
     }
     fn eval(&self, case: &Value, _ctx: &mut Ctx) -> Outcome {
+        // the whole history runs on a thread of its own: whatever thread-local state earlier cases left
+        // behind on the worker thread cannot influence it (and a leak inside the history is reproducible)
+        let case = case.clone();
+        std::thread::Builder::new()
+            .stack_size(256 << 20)
+            .spawn(move || eval_history(&case))
+            .expect("spawn")
+            .join()
+            .unwrap_or_else(|_| Outcome::inconclusive("history thread died"))
+    }
+}
+
+fn eval_history(case: &Value) -> Outcome {
+    {
         let cfg_jsons = case["configs"].as_array().cloned().unwrap_or_default();
         let infos: Vec<_> = cfg_jsons.iter().map(info_from_json).collect();
         let rewriters: Vec<_> = cfg_jsons.iter().map(rw::make_config).collect();
@@ -372,6 +389,7 @@ impl Check for C16 {
         let mut had_err = false;
         let mut repeat_sep = false;
         let mut history: Vec<(usize, String, String)> = vec![];
+        let mut fresh_process_runs = 0;
         for (step, c) in calls.iter().enumerate() {
             let r = c["rw"].as_u64().unwrap_or(0) as usize % rewriters.len().max(1);
             let src = c["src"].as_str().unwrap_or("");
@@ -396,9 +414,20 @@ impl Check for C16 {
                 }
             }
             history.push((r, src.to_string(), file.to_string()));
-            // reference: fresh rewriter, first call
-            let fresh = rw::make_config(&cfg_jsons[r]);
-            let reference = rw::rewrite(&fresh, src, file, &MemReader::default());
+            // reference: fresh rewriter, first call, on a brand-new thread (no thread-local state of this history)
+            let reference = {
+                let cj = cfg_jsons[r].clone();
+                let (s2, f2) = (src.to_string(), file.to_string());
+                std::thread::Builder::new()
+                    .stack_size(256 << 20)
+                    .spawn(move || {
+                        let fresh = rw::make_config(&cj);
+                        rw::rewrite(&fresh, &s2, &f2, &MemReader::default())
+                    })
+                    .expect("spawn")
+                    .join()
+                    .unwrap_or(rw::Outcome::Panic("reference thread died".into()))
+            };
             let (pa, pb) = if infos[r].prefix.is_some() {
                 (None, None)
             } else {
@@ -410,8 +439,64 @@ impl Check for C16 {
                 let d = crate::erase::first_diff(&ka, &kb, "").unwrap_or_default();
                 return Outcome::fail("history-dependent", format!("call #{step} (rewriter {r}, file {file}) differs from the same call on a fresh rewriter: {d}"));
             }
+            // sampled: the same triple in a fresh PROCESS (process-wide state)
+            let h = crate::engine::hash_str(src) ^ (step as u64).wrapping_mul(0x9E37) ^ crate::engine::hash_value(&cfg_jsons[r]);
+            let sample = if file.contains("clash") { h % 6 == 0 } else { h % 60 == 0 };
+            if sample && infos[r].prefix.is_some() && std::env::var("VERIF_NO_ONESHOT").is_err() {
+                match oneshot(&cfg_jsons[r], src, file) {
+                    Ok(kc) => {
+                        if ka != kc {
+                            let d = crate::erase::first_diff(&ka, &kc, "").unwrap_or_default();
+                            return Outcome::fail("process-history-dependent", format!("call #{step} (rewriter {r}, file {file}) differs from the same call in a fresh process: {d}"));
+                        }
+                        fresh_process_runs += 1;
+                    }
+                    Err(e) => return Outcome::inconclusive(format!("oneshot: {e}")),
+                }
+            }
         }
-        Outcome::pass(seen_err_before_ok && repeat_sep, vec![format!("calls:{}", calls.len()), format!("rewriters:{}", rewriters.len())])
+        Outcome::pass(seen_err_before_ok && repeat_sep, vec![format!("calls:{}", calls.len()), format!("rewriters:{}", rewriters.len()), format!("fresh-process-runs:{}", fresh_process_runs)])
+    }
+}
+
+/// the comparable projection of one call executed in a brand-new process (`verif oneshot`)
+fn oneshot(cfg: &Value, src: &str, file: &str) -> Result<Value, String> {
+    use std::io::Write;
+    let exe = std::env::current_exe().map_err(|e| e.to_string())?;
+    let mut child = std::process::Command::new(exe)
+        .arg("oneshot")
+        .stdin(std::process::Stdio::piped())
+        .stdout(std::process::Stdio::piped())
+        .stderr(std::process::Stdio::null())
+        .spawn()
+        .map_err(|e| e.to_string())?;
+    child.stdin.take().unwrap().write_all(json!({"cfg": cfg, "src": src, "file": file}).to_string().as_bytes()).map_err(|e| e.to_string())?;
+    let out = child.wait_with_output().map_err(|e| e.to_string())?;
+    serde_json::from_slice(&out.stdout).map_err(|e| format!("bad oneshot output: {e}"))
+}
+
+pub fn oneshot_main() -> i32 {
+    use std::io::Read;
+    let mut s = String::new();
+    std::io::stdin().read_to_string(&mut s).ok();
+    let Ok(v) = serde_json::from_str::<Value>(&s) else { return 2 };
+    let info = info_from_json(&v["cfg"]);
+    let out = std::thread::Builder::new()
+        .stack_size(256 << 20)
+        .spawn(move || {
+            let c = rw::make_config(&v["cfg"]);
+            let o = rw::rewrite(&c, v["src"].as_str().unwrap_or(""), v["file"].as_str().unwrap_or(""), &MemReader::default());
+            let p = if info.prefix.is_some() { None } else { prefix_of(&o) };
+            outcome_key(&o, p.as_deref())
+        })
+        .expect("spawn")
+        .join();
+    match out {
+        Ok(k) => {
+            println!("{k}");
+            0
+        }
+        Err(_) => 2,
     }
 }
 
@@ -512,7 +597,17 @@ fn map_variants(t: &mut Tape) -> (String, Vec<(String, ReadOutcome)>, bool) {
         std::io::ErrorKind::Interrupted,
     ];
     let b64 = |s: &str| smap::encode_base64(s.as_bytes());
-    match t.below(16) {
+    match t.below(19) {
+        16 | 17 | 18 => {
+            // an arbitrary (possibly malformed) URL
+            const PARTS: &[&str] = &["%", "%2", "%zz", "%20", "é", "\u{1F600}", "..", "/", ":", "?", "#", " ", "a.js.map", "data:", "data:application/json;base64,", "file://", "\\", "%é", "x"];
+            let n = 1 + t.below(6);
+            let mut url = String::new();
+            for _ in 0..n {
+                url.push_str(PARTS[t.below(PARTS.len() - 1)]);
+            }
+            (format!("\n//# sourceMappingURL={url}"), vec![], t.chance(40))
+        }
         0 => (String::new(), vec![], false),
         1 => (format!("\n//# sourceMappingURL=data:application/json;base64,{}", b64(good_map)), vec![], false),
         2 => ("\n//# sourceMappingURL=ext.js.map".into(), vec![("ext.js.map".into(), ReadOutcome::Bytes(good_map.into()))], false),
@@ -578,10 +673,30 @@ impl Check for C13 {
             }
             _ => random_text(&mut t),
         };
+        // constructs with special handling somewhere in the pipeline, in unusual arities
+        const SNIPPETS: &[&str] = &[
+            "new RegExp();", "new RegExp;", "require();", "new RegExp(...a);", "require(...a);", "RegExp();", "new RegExp(a, 'a flags literal longer than ten');",
+            "String.prototype.concat.call();", "String.prototype.concat.apply();", "x?.();", "a?.concat?.()?.trim?.();", "a.concat.call(...b);", "`${a}`.concat();",
+            "({}).substring.apply(a, [,]);", "aloneMethod();", "aloneMethod(...a);", "label: { break label; }", "delete a?.b.c;", "new.target;", "import.meta;",
+        ];
+        let src = if t.chance(70) {
+            let sn = *t.pick(SNIPPETS);
+            src.replacen("let x = a", &format!("{sn} let x = a"), 1)
+        } else {
+            src
+        };
         let src = if plant_reserved {
             // a user identifier with the reserved prefix: the rewrite must be refused, not panic
             let p = cfg.prefix.clone().unwrap_or_else(|| "test".into());
             src.replacen("let x = a", &format!("let __datadog_{p}_0 = a, x = a"), 1)
+        } else {
+            src
+        };
+        let src = if crate::known::avoid_flags().bom_midfile && src.chars().skip(1).any(|c| c == '\u{feff}') {
+            // known finding: excluded by construction (only a leading BOM is kept)
+            let mut it = src.chars();
+            let first: String = it.next().map(|c| c.to_string()).unwrap_or_default();
+            format!("{first}{}", it.filter(|c| *c != '\u{feff}').collect::<String>())
         } else {
             src
         };
@@ -686,13 +801,28 @@ impl Check for C08 {
         "C08"
     }
     fn decode(&self, tape: &[u8], _stream: usize) -> Value {
-        let mut v = decode_prog_case(tape, true, true, true);
-        // comments printing on/off matters here
+        // comments printing on/off matters here; a quarter of the cases also mention reserved-prefix names
+        // (an accepted file whose output re-declares such a name is rejected by V8, not by swc)
         let flip = tape.first().copied().unwrap_or(0) & 1 == 1;
-        if flip {
-            v["cfg"]["comments"] = json!(true);
+        let reserved = tape.get(1).copied().unwrap_or(0) & 3 == 3;
+        if !reserved {
+            let mut v = decode_prog_case(tape, true, true, true);
+            if flip {
+                v["cfg"]["comments"] = json!(true);
+            }
+            return v;
         }
-        v
+        let mut t = Tape::new(&tape[2.min(tape.len())..]);
+        let cfg = gen_cfg(&mut t, &CfgOpts { fixed_prefix: true, rich: true });
+        let mut o = opts_for(&cfg, false);
+        o.reserved_prefix = cfg.prefix.clone();
+        let p = gen_program_t(&mut t, &o);
+        let tags: Vec<&str> = p.tags.iter().copied().collect();
+        let mut j = cfg.json.clone();
+        if flip {
+            j["comments"] = json!(true);
+        }
+        json!({"src": p.src, "cfg": j, "file": "/app/src/gen.js", "tags": tags})
     }
     fn rule(&self) -> String {
         "generated programs x configs (comments on and off), corpus files; precondition: the rewriter returned modified and Node itself compiles the input \
